@@ -15,6 +15,7 @@
     lookup_returns_stored_fails_for_reference   so the statement above is false for that variant
 -/
 import Vita.C15.Lemmas
+import Vita.C15.Exec
 namespace Vita.C15
 
 theorem step_inv {s s' : S} (h : PInv s) (st : StepV s s') : PInv s' := stepV_inv h st
@@ -45,6 +46,12 @@ theorem lookup_returns_stored {L : Nat} {s : S} (h : Reach StepV (S.init L) s) (
   have := hp.thr t
   rw [hd] at this
   simpa [TOK, hL] using this
+
+/-- the tie: whatever sequence of actions the (by-value) driver executes from the initial state of `n`
+    threads, the state it is in is reachable – so `lookup_returns_stored` covers the driver's answers -/
+theorem driver_states_reachable {n L : Nat} (as : List Act) {s' : S}
+    (h : execs false n (S.init L) as = some s') : Reach StepV (S.init L) s' :=
+  (execs_reach Reach.refl (fun _ _ => rfl) as h).1
 
 /-! ### the code as it was written: the reference outlives the lock -/
 
